@@ -241,8 +241,19 @@ func main() {
 				continue
 			}
 		}
+		if r.err != nil && fatalRuntimeError(r.out) != "" {
+			// The Go runtime killed the process (stack overflow by unbounded recursion, concurrent
+			// map access, ...): nothing in-process can record the case. The run is a pure function
+			// of the rapid seed, so the shard is run again with a per-case journal.
+			if rp := rerunWithJournal(id, tier, bin, cfg, seed, r.k, deadline); rp != "" {
+				fmt.Printf("VIOLATION property=%s replay=%s\n", id, rp)
+				fmt.Printf("  shard %d (rapid seed %d): the process died with a fatal runtime error: %s\n", r.k, shardSeed(seed, r.k), fatalRuntimeError(r.out))
+				violations++
+				continue
+			}
+		}
 		if r.err != nil {
-			fmt.Fprintf(os.Stderr, "INFRA: shard %d failed without a counter-example: %v\n%s\n", r.k, r.err, clip(string(r.out), 3000))
+			fmt.Fprintf(os.Stderr, "INFRA: shard %d failed without a counter-example: %v\n%s\n", r.k, r.err, clip(string(r.out), 1200))
 			infra = true
 		}
 	}
@@ -262,6 +273,70 @@ func main() {
 		os.Exit(2)
 	}
 	os.Exit(0)
+}
+
+// fatalRuntimeError returns the first line of a Go runtime fatal error in a shard's output
+// ("" if there is none). Memory exhaustion is excluded: under ulimit -v it says nothing about
+// the library.
+func fatalRuntimeError(out []byte) string {
+	s := string(out)
+	if strings.Contains(s, "out of memory") || strings.Contains(s, "cannot allocate memory") {
+		return ""
+	}
+	for _, key := range []string{"fatal error: ", "runtime: goroutine stack exceeds"} {
+		if i := strings.Index(s, key); i >= 0 {
+			return clip(firstLine(s[i:]), 200)
+		}
+	}
+	return ""
+}
+
+// rerunWithJournal repeats one shard with VERIF_JOURNAL=1 (the judge wrapper then writes every
+// case to journal.<k>.json before judging it) and turns the last journal entry into a replay
+// file if the process dies again.
+func rerunWithJournal(id, tier, bin string, cfg tierCfg, seed int64, k int, deadline time.Duration) string {
+	dir, err := os.MkdirTemp("", "vjournal-"+id+"-")
+	if err != nil {
+		return ""
+	}
+	defer os.RemoveAll(dir)
+	ctx, cancel := context.WithTimeout(context.Background(), 2*deadline)
+	defer cancel()
+	argv := []string{
+		"-test.run", "^" + cfg.Test + "$", "-test.timeout", "0", "-test.count", "1",
+		"-rapid.checks", strconv.Itoa(cfg.Checks), "-rapid.seed", strconv.FormatUint(shardSeed(seed, k), 10),
+		"-rapid.nofailfile", "-rapid.shrinktime", fmt.Sprintf("%ds", cfg.ShrinkS),
+	}
+	argv = append(argv, cfg.Extra...)
+	sh := fmt.Sprintf("ulimit -v %d; exec %s %s", cfg.MemMB*1024, shellQuote(bin), shellJoin(argv))
+	if cfg.Race {
+		sh = fmt.Sprintf("exec %s %s", shellQuote(bin), shellJoin(argv))
+	}
+	cmd := exec.CommandContext(ctx, "bash", "-c", sh)
+	cmd.Dir = filepath.Join(verifRoot, "harness", "props")
+	cmd.Env = append(os.Environ(), "VERIF_OUT="+dir, "VERIF_SHARD="+strconv.Itoa(k), "VERIF_TIER="+tier, "VERIF_JOURNAL=1",
+		"VERIF_KF="+filepath.Join(verifRoot, "known_findings.json"), "GORACE=halt_on_error=1")
+	cmd.SysProcAttr = &syscall.SysProcAttr{Setpgid: true}
+	cmd.Cancel = func() error { return syscall.Kill(-cmd.Process.Pid, syscall.SIGKILL) }
+	out, err := cmd.CombinedOutput()
+	if err == nil || fatalRuntimeError(out) == "" {
+		return "" // did not die again: not reproducible, stays an infrastructure failure
+	}
+	jb, jerr := os.ReadFile(filepath.Join(dir, fmt.Sprintf("journal.%d.json", k)))
+	if jerr != nil {
+		return ""
+	}
+	var f struct {
+		Property string          `json:"property"`
+		Msg      string          `json:"msg"`
+		Case     json.RawMessage `json:"case"`
+	}
+	if json.Unmarshal(jb, &f) != nil {
+		return ""
+	}
+	f.Msg = "the process died with a fatal runtime error while this case was judged: " + fatalRuntimeError(out)
+	nb, _ := json.MarshalIndent(f, "", " ")
+	return saveReplay(id, nb)
 }
 
 func envOr(k, d string) string {
@@ -364,6 +439,9 @@ func runReplay(bin, file string, noKF bool, keep ...string) (violation bool, msg
 		}
 		if ctx.Err() == context.DeadlineExceeded || strings.Contains(string(out), "test timed out") {
 			return true, "replay did not finish within 100 s (hang)"
+		}
+		if fe := fatalRuntimeError(out); fe != "" {
+			return true, "the replay process died with a fatal runtime error: " + fe
 		}
 		fatal2("replay of %s produced no verdict: %v\n%s", file, err, clip(string(out), 3000))
 	}
